@@ -129,6 +129,8 @@ def gen_core(rng, **over):
             h['prog'] = gen_prog(rng, o, '*', nb, kind)
         if key != '*' and rng.random() < 0.3:
             h['byclass'] = True          # registered with the event class instead of the type name
+        if rng.random() < 0.15:
+            h['method'] = True           # registered as a bound method of an object
         sc['handlers'].append(h)
     for x in range(rng.randint(*o['ntasks'])):
         sc['tasks'].append(gen_task(rng, o, nb, x == 0))
